@@ -31,6 +31,7 @@ revert_restore_expirations C11
 revert_zero_jittered_ttl C10
 revert_skipread_waiter C06
 revert_syncmap_cleanup_cad C08 C11
+revert_expireall_unlimited C11
 log_guard_wrong_level C04
 c16_key_copy_after_go C16
 c04_global_lock_during_sync_build C04
